@@ -86,5 +86,6 @@ func clen(b []byte) int {
 			return i
 		}
 	}
-	return len(b) + 1
+	// no terminator within the buffer: the whole buffer is the (truncated) string
+	return len(b)
 }
